@@ -13,6 +13,7 @@ The image is accessed through `rd offset n` so that the driver can serve a 3 MB 
 turning it into a list first; `Img.ofBytes` is the list-backed image used in statements.
 -/
 import Smpl.Model.Basic
+import Smpl.Model.ShortRead
 import Smpl.Model.Alloc
 import Smpl.Model.Names
 import Smpl.Model.Wav
@@ -455,11 +456,23 @@ def windowOf (content : Bytes) (start n : Int) (rev : Bool) : Option Bytes :=
     let w := (content.drop (2 * start.toNat)).take (2 * n.toNat)
     if rev then (if w.length = 2 * n.toNat then some (reverseWords w) else none) else some w
 
+/-- the chain content in declared coordinates (cluster k of the chain at [k·9216, (k+1)·9216)),
+with the bytes that are not in the file as holes. -/
+def chainHoley (img : Img) (cl : List Nat) : Smpl.ShortRead.Holey :=
+  Smpl.ShortRead.ofPieces CLUSTER (cl.map (clusterData img))
+
 /-- bytes of a sample's data stream: its clusters (after `cluster_top`) from the data area,
-the window selected by the loop mode, reversed for the reverse modes. -/
+the window selected by the loop mode, read in blocks (forward, or from the end for the reverse
+modes); a block that touches bytes which are not in the file ends the stream.
+`none` = a reversed window that reaches beyond the chain (numpy reshape error). -/
 def sampleData (img : Img) (s : SampleNode) : Option Bytes :=
   let (start, n, rev) := sampleWindow s.rec_.loopMode s.rec_.points
-  windowOf (chainContent img s.clusters) start n rev
+  let h := chainHoley img s.clusters
+  if n ≤ 0 then some []
+  else if rev then
+    if 2 * (start.toNat + n.toNat) ≤ h.bytes.length then some (Smpl.ShortRead.readReversed h (2 * start.toNat) (2 * n.toNat))
+    else none
+  else some (Smpl.ShortRead.readForward h (2 * start.toNat) (2 * n.toNat))
 
 def genSample (s : SampleNode) : Smpl.Wav.GenSample :=
   { rate := (freqOf (s.rec_.options % 16)).getD 48000, channels := 1, width := 2,
